@@ -9,7 +9,7 @@ THEOREMS = ["Rspirv.Props.C15.orders_ok", "Rspirv.Props.C15.C15_all_eq", "Rspirv
             "Rspirv.Props.C15.C15_assemble", "Rspirv.Props.C15.C15_explicit",
             "Rspirv.Props.C15Inst.C15_inst_into", "Rspirv.Props.C15Inst.C15_inst_alone",
             "Rspirv.Props.C15Inst.foldl_into", "Rspirv.Props.C15Inst.moduleInto_eq", "Rspirv.Props.C15Inst.C15_module_into",
-            "Rspirv.Props.C15Inst.chunks4_pack", "Rspirv.Props.C15Inst.C15_str_into"]
+            "Rspirv.Props.C15Inst.chunks4_pack", "Rspirv.Props.C15Inst.C15_str_into", "Rspirv.Props.C15Inst.C15_full"]
 SECT = ["s0", "s1", "s2", "mm", "s4", "s5", "s6", "s7", "s8", "s9", "s10"]
 
 
